@@ -5,6 +5,7 @@
 -/
 import NxsModel.Driver.Basic
 import NxsModel.Reasm
+import NxsModel.Route
 namespace Nxs.Driver
 open Nxs
 
@@ -18,6 +19,12 @@ def reasmOpWith (c : Codec) : List String → Option String
   | ["scan", h] => do
     let d ← hexArg h
     pure (framesStr (Reasm.scan c d))
+  | ["route", hd, chunks] => do
+    -- reassembly followed by the receive thread's routing: `<response queue> / <stream queue>`
+    let hd ← natArg hd
+    let cs ← (chunks.splitOn ",").mapM hexArg
+    let (a, b) := Route.queues (hd ≠ 0) (Reasm.run c cs)
+    pure (framesStr a ++ " / " ++ framesStr b)
   | _ => none
 
 def reasmOp : List String → Option String := reasmOpWith Serial.codec
